@@ -395,15 +395,9 @@ func (m *DB) Step(op *cs.Op, out *cs.Outcome) string {
 			conds = append(conds, "ErrCollectionExist")
 		}
 		src := coll(op.Q.Coll)
-		if src == nil && op.Q.Coll == op.Coll && len(conds) == 0 && !HasBadLiteral(op.Q.Crit) {
-			// source and target are the same missing collection: either an error (nothing
-			// changes) or an empty new collection is admissible
-			if out.Err == "" {
-				m.Colls[op.Coll] = &Coll{Docs: map[string]cs.Doc{}, Indexes: map[string]bool{}}
-				return ""
-			}
-			return errMatches(out.Err, []string{"any"})
-		}
+		// (source and target being the same missing collection is no exception: the query runs on
+		// a collection that does not exist at the time of the call - C13 - so the call fails and
+		// creates nothing)
 		if src == nil {
 			conds = append(conds, "any")
 		}
